@@ -79,6 +79,16 @@ def run_case(case: dict) -> dict:
         return ev
     d = core.scratch_dir("c02-")
     try:
+        if case["via"] == "skip":
+            f = d / "f.py"
+            f.write_bytes(text.encode("utf-8"))
+            before = f.read_bytes()
+            r = core.run_reuse(["--root", str(d), "annotate", "--skip-existing", "--copyright", "Someone New", "--license", "0BSD", str(f)])
+            if r["exc"]:
+                ev["crash"] = r["exc"][-400:]
+            ev["obs"] = []
+            ev["recognised"] = f.read_bytes() == before and not (d / "f.py.license").exists()
+            return ev
         (d / "f.txt").write_bytes(text.encode("utf-8"))
         r = core.run_reuse(["--root", str(d), "--no-multiprocessing", "lint", "--json"])
         if r["exc"] or r["exit"] not in (0, 1):
@@ -128,6 +138,12 @@ def run(ctx: core.Ctx) -> int:
             cases.append({"tid": len(cases) + 1, "g": g, "via": "lint", "place": place, "snippet": bool(j % 4 >= 2),
                           "poison": j % 7 == 0, "eol": ["\n", "\r\n", "\r"][j % 3], "wide": j % 3 == 1,
                           "bom": j % 4 == 2 and place == "head" and j % 7 != 0})
+    # a third reader of the same lines: `annotate --skip-existing` (licence and copyright tags, all line endings)
+    for gi, g in enumerate((gens + gens_s)[:: 40 if q else 8]):
+        if KIND[g["c"]["tag"]] == "con":
+            continue
+        cases.append({"tid": len(cases) + 1, "g": g, "via": "skip", "place": "head", "snippet": False, "poison": False,
+                      "eol": ["\n", "\r\n", "\r"][gi % 3]})
     # the snippet marker at byte offsets around multiples of the 4 KiB window (LF files; offsets are byte-exact there)
     basic = [g for g in gens if g["c"]["tag"] in ("lic", "cop") and not g["c"]["frame"]][:: max(1, len(gens) // 40)]
     for gi, g in enumerate(basic):
